@@ -171,6 +171,12 @@ class Module:
                     if isinstance(t, ast.Name):
                         self.defs[t.id] = st
 
+    def resolve_rel(self, imp):
+        if getattr(imp, "level", 0):
+            base = self.name.split(".")[:-imp.level]
+            return ".".join(base + ([imp.module] if imp.module else []))
+        return imp.module
+
     def lookup(self, name):
         if name in self.globals:
             return self.globals[name]
@@ -194,7 +200,7 @@ class Module:
                 for a in imp.names:
                     nm = a.asname or a.name
                     if nm == name:
-                        v = self.interp.import_from(imp.module, a.name)
+                        v = self.interp.import_from(self.resolve_rel(imp), a.name)
                         self.globals[name] = v
                         return v
         return NOTFOUND
@@ -297,8 +303,9 @@ class Interp:
             env.vars[nm] = self.import_module(a.name if a.asname else a.name.split(".")[0])
 
     def st_ImportFrom(self, st, env, in_class):
+        mod = env.module.resolve_rel(st) if env.module is not None else st.module
         for a in st.names:
-            env.vars[a.asname or a.name] = self.import_from(st.module, a.name)
+            env.vars[a.asname or a.name] = self.import_from(mod, a.name)
 
     def st_FunctionDef(self, st, env, in_class):
         kind = "function"
@@ -553,6 +560,18 @@ class Interp:
 
     def ev_Dict(self, e, env):
         d = {}
+        if any(k is None for k in e.keys):
+            from .heap import OptDict, merged_dict
+            parts = [self.eval(v, env) if k is None else None for k, v in zip(e.keys, e.values)]
+            if any(isinstance(p, OptDict) for p in parts):
+                if any(k is not None for k in e.keys):
+                    raise Unsupported("dict display mixing ** of symbolic dicts with plain items")
+                return merged_dict(self, parts)
+            for p in parts:
+                if not isinstance(p, dict):
+                    raise Unsupported("** of non-dict")
+                d.update(p)
+            return d
         for k, v in zip(e.keys, e.values):
             if k is None:
                 src = self.eval(v, env)
